@@ -403,6 +403,13 @@ func (db *DB) ReleaseRemoteHaltLock(ctx context.Context, lockID int64) (retErr e
 // This only removes the reference locally as it's assumed it has already been
 // removed on the primary.
 func (db *DB) UnsetRemoteHaltLock(ctx context.Context, lockID int64) (retErr error) {
+	return db.unsetRemoteHaltLock(ctx, lockID, false)
+}
+
+// unsetRemoteHaltLock implements UnsetRemoteHaltLock. If writeLocked is true
+// then the caller already holds the write lock of the database and recovery
+// runs under that lock instead of acquiring it again.
+func (db *DB) unsetRemoteHaltLock(ctx context.Context, lockID int64, writeLocked bool) (retErr error) {
 	TraceLog.Printf("[UnsetRemoteHaltLock(%s)]:", db.name)
 
 	haltLock := db.remoteHaltLock.Load().(*HaltLock)
@@ -418,7 +425,11 @@ func (db *DB) UnsetRemoteHaltLock(ctx context.Context, lockID int64) (retErr err
 	}()
 
 	// Checkpoint when we release the remote lock.
-	if err := db.Recover(ctx); err != nil {
+	if writeLocked {
+		if err := db.recover(ctx); err != nil {
+			return fmt.Errorf("recovery: %w", err)
+		}
+	} else if err := db.Recover(ctx); err != nil {
 		return fmt.Errorf("recovery: %w", err)
 	}
 
